@@ -16,15 +16,15 @@ type Macro struct {
 }
 
 type SpecEnv struct {
-	e     *Engine
-	st    *State
-	old   *State
-	names map[string]Value
-	pos   token.Pos    // for scope lookups in the current frame's package
-	tpkg  *types.Package
+	e        *Engine
+	st       *State
+	old      *State
+	names    map[string]Value
+	pos      token.Pos // for scope lookups in the current frame's package
+	tpkg     *types.Package
 	scopePkg *types.Package
-	bound map[string]*Term
-	noScope bool
+	bound    map[string]*Term
+	noScope  bool
 	calleeFn *types.Func
 }
 
@@ -46,7 +46,7 @@ func (env *SpecEnv) inState(st *State) *SpecEnv {
 
 // environment for clauses of the function under verification evaluated at program point pos
 func (e *Engine) specEnvAt(st *State, pos token.Pos) *SpecEnv {
-	return &SpecEnv{e: e, st: st, old: e.old, names: e.baseNames, pos: pos, tpkg: e.pkg().Types}
+	return &SpecEnv{e: e, st: st, old: e.old, names: e.selfNames, pos: pos, tpkg: e.pkg().Types}
 }
 
 func (env *SpecEnv) lookup(name string) (Value, bool) {
@@ -447,6 +447,30 @@ func (e *Engine) evalSpecCall(x *SExpr, env *SpecEnv) Value {
 	}
 	if pf, ok := prelude[name]; ok {
 		vs := evalArgs()
+		if pf.Poly {
+			var es Sort
+			for _, v := range vs {
+				if sv, ok := v.(VStream); ok {
+					es = e.sortOf(sv.Elem)
+					break
+				}
+			}
+			if es == "" {
+				unsup("spec: polymorphic %s needs a stream argument", name)
+			}
+			tag := sortTag(es)
+			iname := name + "_" + tag
+			if _, ok := prelude[iname]; !ok {
+				r := strings.NewReplacer("{S}", string(es), "{T}", tag)
+				np := &PreludeFn{Name: iname, Args: pf.Args, Ret: pf.Ret, SMT: r.Replace(pf.SMT)}
+				for _, d := range pf.Deps {
+					np.Deps = append(np.Deps, r.Replace(d))
+				}
+				prelude[iname] = np
+			}
+			pf = prelude[iname]
+			name = iname
+		}
 		if len(vs) != len(pf.Args) {
 			unsup("spec: %s expects %d args", name, len(pf.Args))
 		}
